@@ -496,6 +496,10 @@ func execSegment(sc *ck.Script, i int, p *prepared) bool {
 	}
 	k := seg.K % len(win)
 	ktr, err := ck.Run(exe, p.base, scriptPath, p.dir, &ck.Inject{Name: win[k].Name, Ord: win[k].Ord})
+	if err == ck.ErrTimeout {
+		run.Count("script-abandoned-child-timeout")
+		return false
+	}
 	if err != nil {
 		panic(fmt.Sprintf("earlier segment: %v (script %s)", err, sc.JSON()))
 	}
@@ -524,6 +528,10 @@ func execSegment(sc *ck.Script, i int, p *prepared) bool {
 // oracle has reported it (reopen-fails) on the crash that caused it, so the rest
 // of the script is abandoned.
 func cannotReopen(tr *ck.Trace, err error) bool {
+	if err == ck.ErrTimeout {
+		run.Count("script-abandoned-child-timeout")
+		return true
+	}
 	if err != nil && tr != nil && strings.Contains(tr.Stdout, "CHILD-ERROR new:") {
 		run.Count("script-abandoned-after-unrecoverable-crash")
 		return true
@@ -659,6 +667,9 @@ var workers = 4
 
 func killAt(sc *ck.Script, scriptPath, root string, win []ck.Event, k int, sizes map[int][]int64, before, after *sim) outcome {
 	tr, err := ck.Run(exe, root, scriptPath, filepath.Dir(root), &ck.Inject{Name: win[k].Name, Ord: win[k].Ord})
+	if err == ck.ErrTimeout {
+		return outcome{missed: true}
+	}
 	if err != nil {
 		return outcome{err: err.Error()}
 	}
